@@ -3,7 +3,7 @@ CONSTANTS Profiles <- P0
  EmptyActive = 6
  RepActive = 5
  RichActive = 5
- JointActive = 3
+ JointActive = 2
  OverrideLens = {0, 1, 2}
  Emit = TRUE
 SPECIFICATION Spec
